@@ -115,13 +115,15 @@ def nontrivial(case, c_out):
     return (has_line and has_err) or long_line
 
 
-SCHED_CLASS = re.compile(rb'[^\r\n]{1001}[^\n]*\r(?!\n)', re.S)
+# an over-long line is one with 1000 or more octets before its line end (999 + CRLF is the longest that fits lineinbuf);
+# the class: a bare CR somewhere behind the first 1000 CR/LF-free octets of such a line
+SCHED_CLASS = re.compile(rb'[^\r\n]{1000}[^\n]*\r(?!\n)', re.S)
 
 
 def classify(case, c_out, spec_out):
     """known-finding classes (see known_findings.txt):
        resync-after-stray  every line that does not start after CRLF directly follows an error item (F-C05-2)
-       sched-overlong-cr   schedule dependence on a stream with >= 1001 octets free of CR/LF followed, before the next LF, by a bare CR (F-C05-3)"""
+       sched-overlong-cr   schedule dependence on a stream with >= 1000 octets free of CR/LF followed, before the next LF, by a bare CR (F-C05-3)"""
     if not spec_out.startswith('bad:'):
         return None
     reasons = set(spec_out[4:].split(','))
